@@ -6,7 +6,9 @@ The generic theorems hold for every `Neg σ κ` (any specificity function, any m
 two `≤` relations are total preorders; they are then instantiated for the four werkzeug classes.
 -/
 import WzVerif.Lemmas.AcceptText
+import WzVerif.Lemmas.AcceptHeader
 import WzVerif.Gen.AcceptTbl
+import WzVerif.Gen.AcceptApi
 namespace Wz.Props.C17
 open Wz Wz.Accept
 
@@ -854,5 +856,344 @@ theorem charset_bestMatch_optimal (aliases : List (Str × Str)) (self : List (St
 example : bestMatch (charsetNeg [("UTF8".toList, "utf-8".toList), ("utf-8".toList, "utf-8".toList)])
     (mk (charsetNeg []) [("UTF8".toList, ⟨5, 1⟩)]) ["latin1".toList, "utf-8".toList]
     = some "utf-8".toList := by decide
+
+/-! ## the Request attributes and the rest of the Accept API -/
+
+def clsName : AcceptCls → Str
+  | .accept => "Accept".toList
+  | .mime => "MIMEAccept".toList
+  | .lang => "LanguageAccept".toList
+  | .charset => "CharsetAccept".toList
+
+/-- `Request.accept_mimetypes / accept_charsets / accept_encodings / accept_languages`, read from
+the source by AST on every run: each is `parse_accept_header(self.headers.get(<header>), <class>)`
+with exactly the header and the class the model uses (a swapped header or class changes the
+regenerated table). -/
+theorem request_attr_table :
+    Gen.AcceptApi.requestAttrs =
+      AcceptAttr.all.map fun a => (a.spec.1, a.spec.2.1, clsName a.spec.2.2) := by decide
+
+/-- `MIMEAccept.accept_html / accept_xhtml / accept_json` test exactly these media types with
+`in self`, or-ed together (`accept_html` also consults `accept_xhtml`) — as the model does. -/
+theorem mime_flag_table :
+    Gen.AcceptApi.mimeFlags =
+      [("accept_html".toList, [mtHtml], ["accept_xhtml".toList]),
+       ("accept_xhtml".toList, [mtXhtml, mtXml], []),
+       ("accept_json".toList, [mtJson], [])] := by decide
+
+/-- Which methods each class defines itself: `MIMEAccept` only `_specificity` and `_value_matches`,
+`LanguageAccept` only `_value_matches` and `best_match`, `CharsetAccept` only `_value_matches` —
+everything else (`quality`, `find`, `index`, `__contains__`, `__getitem__`, `best`, `values`,
+`to_header`, the sort in `__init__`) is `Accept`'s, which is what makes the generic theorems apply
+to all four classes. -/
+theorem class_overrides_table :
+    Gen.AcceptApi.overrides =
+      [("Accept".toList, ["__contains__".toList, "__getitem__".toList, "__init__".toList,
+          "_best_single_match".toList, "_specificity".toList, "_value_matches".toList, "best".toList,
+          "best_match".toList, "find".toList, "index".toList, "quality".toList, "to_header".toList,
+          "values".toList]),
+       ("MIMEAccept".toList, ["_specificity".toList, "_value_matches".toList]),
+       ("LanguageAccept".toList, ["_value_matches".toList, "best_match".toList]),
+       ("CharsetAccept".toList, ["_value_matches".toList])] := by decide
+
+/-- A Request attribute depends on its own header only: two header sets that agree on that header
+give the same object — `Accept-Language` never leaks into `accept_mimetypes` etc. -/
+theorem request_attr_reads_only_its_header (aliases : List (Str × Str)) (attr : AcceptAttr)
+    (h1 h2 : List (Str × Str)) (h : headersGet h1 attr.spec.2.1 = headersGet h2 attr.spec.2.1) :
+    requestAccept aliases attr h1 = requestAccept aliases attr h2 := by
+  simp [requestAccept, h]
+
+/-- … and is the parse of that header's text with the attribute's class, so every theorem about
+`parseAccept` / `bestMatch` (`negotiation_meets_property_text` …) is a theorem about
+`request.accept_*`. An absent header gives the empty object, on which nothing is ever chosen. -/
+theorem request_attr_is_parse (aliases : List (Str × Str)) (attr : AcceptAttr) (headers : List (Str × Str)) :
+    (∀ v, headersGet headers attr.spec.2.1 = some v →
+      requestAccept aliases attr headers = parseAccept (attr.spec.2.2.neg aliases) v) ∧
+    (headersGet headers attr.spec.2.1 = none →
+      requestAccept aliases attr headers = .ok [] ∧
+      ∀ offers d, clsBestMatch aliases attr.spec.2.2 [] offers d = d) := by
+  refine ⟨fun v hv => by simp [requestAccept, hv], fun hn => ⟨by simp [requestAccept, hn], ?_⟩⟩
+  intro offers d
+  have hb : ∀ (N : Neg (List Bool) Q) (os : List Str), bestMatch N [] os = none := by
+    intro N os
+    have : ∀ st, os.foldl (bestStep N []) st = st := by
+      induction os with
+      | nil => intro st; rfl
+      | cons o t ih => intro st; simp [List.foldl_cons, bestStep, bestSingle, ih]
+    simp [bestMatch, this]
+  cases hc : attr.spec.2.2 <;>
+    simp [clsBestMatch, bestMatchD, hb, langBestMatch, langNotRefused, langFallbackSelf, mk, sortDesc]
+
+example : (requestAccept [] .languages [("Accept".toList, "text/html".toList),
+      ("accept-language".toList, "de;q=0.5, en".toList)]).toOption =
+    some [("en".toList, Q.one), ("de".toList, ⟨5, 1⟩)] := by decide
+
+/-- `best_match(matches, default)`: the default is returned exactly when plain `best_match` returns
+`None`; otherwise the result is the negotiated offer (to which `bestMatch_optimal` applies). -/
+theorem bestMatch_default (N : Neg σ κ) (self : List (Str × κ)) (offers : List Str) (d : Option Str) :
+    (bestMatch N self offers = none → bestMatchD N self offers d = d) ∧
+    (∀ r, bestMatch N self offers = some r → bestMatchD N self offers d = some r) := by
+  constructor
+  · intro h; simp [bestMatchD, h]
+  · intro r h; simp [bestMatchD, h]
+
+/-- The `best` property is the first parsed item: a client item that is at least as specific as
+every other one and has the highest q among the equally specific ones. (Most specific first —
+*not* highest quality first: `text/html;q=0.1, */*;q=0.9` has `best == "text/html"`.) -/
+theorem best_is_most_specific_first (N : Neg σ κ) (hs : TotalPre N.sle) (hq : TotalPre N.qle)
+    (values : List (Str × κ)) (v : Str) (h : best (mk N values) = some v) :
+    ∃ q, (v, q) ∈ values ∧ ∀ y ∈ values,
+      N.sle (N.spec y.1) (N.spec v) = true ∧
+      (N.sle (N.spec v) (N.spec y.1) = true → N.qle y.2 q = true) := by
+  unfold best at h
+  cases hm : mk N values with
+  | nil => rw [hm] at h; cases h
+  | cons x t =>
+    rw [hm] at h
+    simp only [List.head?_cons, Option.map_some, Option.some.injEq] at h
+    subst h
+    have hsorted := parse_sorted N hs hq values
+    rw [hm] at hsorted
+    have hx : x ∈ values := (mem_sortDesc _).mp (by rw [show sortDesc (keyGe N) values = mk N values from rfl, hm]; simp)
+    refine ⟨x.2, hx, ?_⟩
+    intro y hy
+    have hy' : y ∈ x :: t := by rw [← hm]; exact (mem_sortDesc _).mpr hy
+    rcases List.mem_cons.mp hy' with rfl | hyt
+    · exact ⟨hs.refl _, fun _ => hq.refl _⟩
+    · exact (List.pairwise_cons.mp hsorted).1 y hyt
+
+example : best (mk mimeNeg [("*/*".toList, ⟨9, 1⟩), ("text/html".toList, ⟨1, 1⟩)]) = some "text/html".toList := by
+  decide
+
+/-- `self[key]` / `quality(key)` for a string key is the q of `_best_single_match` — on a parsed
+object the quality of the offer in the property's sense (`sorted_first_match_most_specific`) — and
+`0` exactly when no client range matches. -/
+theorem getitem_is_offer_quality (N : Neg σ κ) (values : List (Str × κ)) (key : Str) :
+    (∀ x, bestSingle N (mk N values) key = some x → getItemStr N (mk N values) key = x.2) ∧
+    ((∀ y ∈ values, N.matches key y.1 = false) → getItemStr N (mk N values) key = N.zero) := by
+  constructor
+  · intro x hx; simp [getItemStr, quality, hx]
+  · intro h
+    have := (no_match_iff N values key).mpr h
+    simp [getItemStr, quality, this]
+
+/-- `index(key)` is `find(key)` with `ValueError` for `-1`: it returns the position of the first
+item that matches, and raises exactly when none does. -/
+theorem index_spec (N : Neg σ κ) (self : List (Str × κ)) (key : Str) :
+    (∀ i, index N self key = .ok i ↔ find N self key = some i) ∧
+    (index N self key = .error "ValueError" ↔ ∀ y ∈ self, N.matches key y.1 = false) ∧
+    (∀ i, index N self key = .ok i →
+      ∃ x, self[i]? = some x ∧ N.matches key x.1 = true ∧ bestSingle N self key = some x) := by
+  refine ⟨?_, ?_, ?_⟩
+  · intro i
+    unfold index
+    cases find N self key <;> simp
+  · unfold index
+    cases hf : find N self key with
+    | none =>
+      simp only [true_iff]
+      have := (quality_find_contains N self key).2.1.mp hf
+      simpa [bestSingle, List.find?_eq_none] using this
+    | some i =>
+      simp only [reduceCtorEq, false_iff]
+      intro hall
+      have hnone : find N self key = none := by
+        simp only [find, List.findIdx?_eq_none_iff]
+        intro y hy; simpa using hall y hy
+      rw [hnone] at hf; cases hf
+  · intro i hi
+    unfold index at hi
+    cases hf : find N self key with
+    | none => rw [hf] at hi; cases hi
+    | some j =>
+      rw [hf] at hi
+      simp only [Except.ok.injEq] at hi
+      subst hi
+      unfold find at hf
+      have hlt := (List.findIdx?_eq_some_iff_getElem.mp hf).1
+      have hget := (List.findIdx?_eq_some_iff_getElem.mp hf).2
+      refine ⟨self[j], by simp [hlt], by simpa using hget.1, ?_⟩
+      unfold bestSingle
+      rw [List.find?_eq_some_iff_getElem]
+      refine ⟨by simpa using hget.1, j, hlt, rfl, ?_⟩
+      intro k hk
+      simpa using hget.2 k hk
+
+/-- `values()` lists the client's values, each exactly once per item (a permutation of the header
+order). -/
+theorem values_perm (N : Neg σ κ) (vs : List (Str × κ)) :
+    (values (mk N vs)).Perm (vs.map (·.1)) := (parse_perm N vs).map _
+
+/-- the convenience flags are membership tests: `accept_json` holds exactly when some client range
+matches `application/json` (and likewise for the others) -/
+theorem mime_flags_spec (self : List (Str × Q)) :
+    (acceptJson self = true ↔ ∃ it ∈ self, mimeMatches mtJson it.1 = true) ∧
+    (acceptXhtml self = true ↔ ∃ it ∈ self, mimeMatches mtXhtml it.1 = true ∨ mimeMatches mtXml it.1 = true) ∧
+    (acceptHtml self = true ↔ ∃ it ∈ self, mimeMatches mtHtml it.1 = true ∨
+        mimeMatches mtXhtml it.1 = true ∨ mimeMatches mtXml it.1 = true) := by
+  refine ⟨?_, ?_, ?_⟩
+  · simp [acceptJson, contains, mimeNeg]
+  · simp only [acceptXhtml, contains, mimeNeg, Bool.or_eq_true, List.any_eq_true]
+    constructor
+    · rintro (⟨it, hm, h⟩ | ⟨it, hm, h⟩)
+      · exact ⟨it, hm, Or.inl h⟩
+      · exact ⟨it, hm, Or.inr h⟩
+    · rintro ⟨it, hm, h | h⟩
+      · exact Or.inl ⟨it, hm, h⟩
+      · exact Or.inr ⟨it, hm, h⟩
+  · simp only [acceptHtml, acceptXhtml, contains, mimeNeg, Bool.or_eq_true, List.any_eq_true]
+    constructor
+    · rintro (⟨it, hm, h⟩ | ⟨it, hm, h⟩ | ⟨it, hm, h⟩)
+      · exact ⟨it, hm, Or.inl h⟩
+      · exact ⟨it, hm, Or.inr (Or.inl h)⟩
+      · exact ⟨it, hm, Or.inr (Or.inr h)⟩
+    · rintro ⟨it, hm, h | h | h⟩
+      · exact Or.inl ⟨it, hm, h⟩
+      · exact Or.inr (Or.inl ⟨it, hm, h⟩)
+      · exact Or.inr (Or.inr ⟨it, hm, h⟩)
+
+example : acceptHtml [("application/xml".toList, Q.one)] = true ∧
+    acceptJson [("*/*".toList, Q.zero)] = true ∧ acceptJson [("text/*".toList, Q.one)] = false := by decide
+
+/-! ## the property on a Request attribute, end to end -/
+
+/-- End to end from the request: for `request.accept_mimetypes`, `accept_charsets` and
+`accept_encodings` (for `accept_languages` see the `lang_*` theorems), when the attribute's header
+carries the well-formed text of the elements `es` and `best_match(offers, default)` returns an
+offer `r` that negotiation chose (plain `best_match` is not `None`), then `r` is an offer, its
+quality — computed declaratively from the header's elements — is positive and no offer has a
+higher one. The other request headers play no role. -/
+theorem request_negotiation_meets_property (aliases : List (Str × Str)) (attr : AcceptAttr)
+    (hattr : attr ≠ .languages) (headers : List (Str × Str)) (es : List Elem) (hne : es ≠ [])
+    (hwf : ∀ e ∈ es, e.WF) (hh : headersGet headers attr.spec.2.1 = some (headerText es))
+    (self : List (Str × Q)) (hself : requestAccept aliases attr headers = .ok self)
+    (offers : List Str) (d : Option Str) (r : Str)
+    (hb : bestMatch (attr.spec.2.2.neg aliases) self offers = some r) :
+    clsBestMatch aliases attr.spec.2.2 self offers d = some r ∧ r ∈ offers ∧
+    ∃ x, IsOfferQuality (attr.spec.2.2.neg aliases) (es.filterMap Elem.item) r x ∧
+      Q.le x.2 Q.zero = false ∧
+      ∀ o ∈ offers, ∀ y, IsOfferQuality (attr.spec.2.2.neg aliases) (es.filterMap Elem.item) o y →
+        Q.le y.2 x.2 = true := by
+  have hp : parseAccept (attr.spec.2.2.neg aliases) (headerText es) = .ok self := by
+    rw [← (request_attr_is_parse aliases attr headers).1 _ hh]; exact hself
+  have hsle : (attr.spec.2.2.neg aliases).sle = specLe := by
+    cases attr <;> first | rfl | exact absurd rfl hattr
+  have hqle : (attr.spec.2.2.neg aliases).qle = Q.le := by
+    cases attr <;> first | rfl | exact absurd rfl hattr
+  have hzero : (attr.spec.2.2.neg aliases).zero = Q.zero := by
+    cases attr <;> first | rfl | exact absurd rfl hattr
+  have key := negotiation_meets_property_text (attr.spec.2.2.neg aliases)
+    (by rw [hsle]; exact specLe_totalPre) es hne hwf self hp offers r hb hqle
+  rw [hqle, hzero] at key
+  refine ⟨?_, key⟩
+  have hc : ∀ c : AcceptCls, c ≠ .lang →
+      clsBestMatch aliases c self offers d = bestMatchD (c.neg aliases) self offers d := by
+    intro c hcl
+    cases c <;> first | rfl | exact absurd rfl hcl
+  have hnl : attr.spec.2.2 ≠ .lang := by
+    cases attr with
+    | languages => exact absurd rfl hattr
+    | mimetypes => intro h; cases h
+    | charsets => intro h; cases h
+    | encodings => intro h; cases h
+  rw [hc _ hnl, (bestMatch_default _ self offers d).2 r hb]
+
+/-! ### the fallback stages of `LanguageAccept.best_match` are optimal in their own terms -/
+
+/-- Stage 2 (no offer has positive quality under exact matching): the result is the generic
+selection of a plain `Accept` built from the client's *primary tags* over the offers that were not
+refused — so it has the highest quality among those offers (quality = q of the range whose primary
+tag equals the offer, `*` least specific), ties to the earlier offer. -/
+theorem lang_stage2_optimal (self : List (Str × Q)) (offers : List Str) (r : Str)
+    (h1 : bestMatch langNeg self offers = none)
+    (h2 : bestMatch acceptNeg (langFallbackSelf self) (langNotRefused self offers) = some r) :
+    langBestMatch self offers = some r ∧
+    ∃ pre post ci q, langNotRefused self offers = pre ++ r :: post ∧
+      bestSingle acceptNeg (langFallbackSelf self) r = some (ci, q) ∧ Q.le q Q.zero = false ∧
+      (∀ o ∈ langNotRefused self offers, ∀ ci' q', bestSingle acceptNeg (langFallbackSelf self) o = some (ci', q') →
+          Q.le q' q = true ∧ (Q.le q q' = true → specLe (baseSpec ci') (baseSpec ci) = true)) ∧
+      (∀ o ∈ pre, ∀ ci' q', bestSingle acceptNeg (langFallbackSelf self) o = some (ci', q') →
+          Q.le q q' = true → specLe (baseSpec ci) (baseSpec ci') = false) := by
+  refine ⟨by simp [langBestMatch, h1, h2], ?_⟩
+  exact bestMatch_optimal acceptNeg specLe_totalPre qle_totalPre _ _ r h2
+
+/-- Stage 3 (stages 1 and 2 found nothing): the offers' primary tags are negotiated against the
+client's ranges with the generic selection (`bestMatch_optimal` applies to the tag `p`), and the
+result is the **first** not-refused offer whose primary tag is the chosen tag. -/
+theorem lang_stage3_first_offer (self : List (Str × Q)) (offers : List Str) (r : Str)
+    (h1 : bestMatch langNeg self offers = none)
+    (h2 : bestMatch acceptNeg (langFallbackSelf self) (langNotRefused self offers) = none)
+    (h : langBestMatch self offers = some r) :
+    ∃ p, bestMatch langNeg self ((langNotRefused self offers).map primaryTag) = some p ∧
+      primaryTag r = p ∧
+      ∃ pre post, langNotRefused self offers = pre ++ r :: post ∧ ∀ o ∈ pre, primaryTag o ≠ p := by
+  unfold langBestMatch at h
+  rw [h1] at h
+  dsimp only at h
+  rw [h2] at h
+  dsimp only at h
+  generalize langNotRefused self offers = offers' at h ⊢
+  cases h3 : bestMatch langNeg self (offers'.map primaryTag) with
+  | none => rw [h3] at h; cases h
+  | some p =>
+    rw [h3] at h
+    refine ⟨p, rfl, ?_⟩
+    dsimp only at h
+    -- the first pair of the zip whose second component is p
+    clear h1 h2 h3
+    induction offers' with
+    | nil => simp at h
+    | cons a t ih =>
+      simp only [List.map_cons, List.zip_cons_cons, List.find?_cons] at h
+      by_cases hp : (primaryTag a == p) = true
+      · simp only [hp, Option.map_some, Option.some.injEq] at h
+        subst h
+        exact ⟨by simpa using hp, [], t, rfl, by simp⟩
+      · have hp' : (primaryTag a == p) = false := by simpa using hp
+        simp only [hp'] at h
+        obtain ⟨hpr, pre, post, hl, hall⟩ := ih h
+        refine ⟨hpr, a :: pre, post, by simp [hl], ?_⟩
+        intro o ho
+        rcases List.mem_cons.mp ho with rfl | ho
+        · simpa using hp
+        · exact hall o ho
+
+example : langBestMatch (mk langNeg [("en".toList, Q.one)]) ["de-AT".toList, "en-GB".toList, "en-US".toList]
+    = some "en-GB".toList := by decide
+
+
+/-! ## `to_header()` / `str()` and its re-parse (normal form) -/
+
+/-- Every RFC 9110 qvalue (`k/1000`, three decimals, `0 ≤ k ≤ 1000`) prints — when it is not 1 — as
+a text that `_q_value_re` and the range check accept and that denotes the same number
+(`0.5`, `0.001`, `0.0`, …): `decide` over all 1001 values. -/
+theorem rfc_qvalues_reprint : ∀ k, k ≤ 1000 → ReprOk ⟨k, 3⟩ = true := by decide +kernel
+
+/-- Normal form: for a non-empty object whose values are plain (token characters and `/`: media
+ranges without parameters, language tags, charsets, codings) and whose qualities reprint
+(`ReprOk`: all RFC qvalues by `rfc_qvalues_reprint`), `parse_accept_header(obj.to_header())` yields
+the same values in the same order with numerically equal qualities — nothing dropped, nothing
+reordered before the class sorts again.
+-- OPEN: items carrying parameters (`text/html; level=1`: `to_header` writes `; ` inside the item,
+-- which the element grammar of `parse_accept_text` does not cover; stream `accept-api` checks it),
+-- and qualities below `1e-4`, for which Python prints `1e-05` — a text `_q_value_re` rejects, so the
+-- item is lost on re-parse (`qRepr = none` in the model). -/
+theorem to_header_normal_form (self : List (Str × Q)) (hne : self ≠ [])
+    (hv : ∀ it ∈ self, IsValueText it.1) (hq : ∀ it ∈ self, ReprOk it.2 = true) :
+    ∃ t, toHeader self = some t ∧ parseAcceptRaw t = .ok (self.map reparsed) ∧
+      ∀ it ∈ self, (reparsed it).1 = it.1 ∧ Q.equiv (reparsed it).2 it.2 = true := by
+  refine ⟨_, toHeader_headerText self hq, ?_, fun it hit => reparsed_equiv it (hq it hit)⟩
+  rw [parse_accept_text (self.map elemOf) (by simpa using hne)
+    (by
+      intro e he
+      obtain ⟨it, hit, rfl⟩ := List.mem_map.mp he
+      exact elemOf_wf it (hv it hit) (hq it hit))]
+  rw [filterMap_elemOf self hq]
+
+example : toHeader [("text/html".toList, ⟨500, 3⟩), ("*/*".toList, ⟨1000, 3⟩), ("a".toList, ⟨0, 0⟩)] =
+      some "text/html;q=0.5,*/*,a;q=0.0".toList ∧
+    (parseAcceptRaw "text/html;q=0.5,*/*,a;q=0.0".toList).toOption =
+      some [("text/html".toList, ⟨5, 1⟩), ("*/*".toList, Q.one), ("a".toList, ⟨0, 1⟩)] ∧
+    toHeader [("a".toList, ⟨1, 5⟩)] = none := by decide
 
 end Wz.Props.C17
